@@ -117,6 +117,7 @@ PROPS["C14"] = {
     "units": [
         rapid("userlist-machine", "rtpconn", "TestVerif_C14_UserListConvergence", 500, 4000),
         rapid("delayed-observer", "rtpconn", "TestVerif_C14_DelayedObserver", 60, 500, shards=8),
+        rapid("interleaved-membership", "rtpconn", "TestVerif_C14_InterleavedMembership", 100, 1200, shards=8),
     ],
     "technique": "model-based stateful property testing (rapid): views rebuilt from events vs true membership at quiescence",
     "assumptions": ["quiescence = all action queues drained and galene's broadcast goroutines finished (exact barrier on the goroutine dump)"],
@@ -195,8 +196,9 @@ PROPS["C19"] = {
         rapid("name-validators", "group", "TestVerif_C19_NameValidators", 20000, 150000),
         rapid("url-parsing", "webserver", "TestVerif_C19_UrlParsing", 8000, 60000),
         rapid("confinement", "webserver", "TestVerif_C19_Confinement", 1500, 12000),
+        rapid("admitted-usernames", "group", "TestVerif_C19_AdmittedUsernames", 3000, 30000),
     ],
-    "technique": "property-based testing (rapid): reference predicate for the validators; hostile request targets over raw TCP against the real server with sentinel files outside the roots",
+    "technique": "property-based testing (rapid): reference predicate for the validators; hostile usernames through every login route (password, wildcard, stateful and signed tokens) into AddClient; hostile request targets over raw TCP against the real server with sentinel files outside the roots",
     "assumptions": ["Linux path semantics (filepath.Separator == '/')", "symlinks placed inside the roots by the operator are not a client-supplied name"],
 }
 
@@ -205,9 +207,10 @@ PROPS["C18"] = {
         rapid("etag-headers", "webserver", "TestVerif_C18_EtagHeaders", 10000, 80000),
         rapid("conditional-sequences", "webserver", "TestVerif_C18_ConditionalSequences", 300, 2500),
         rapid("racing-writers", "webserver", "TestVerif_C18_RacingWriters", 60, 500),
+        rapid("parked-writers", "webserver", "TestVerif_C18_ParkedWriters", 300, 3000),
         crash("crash-points", "group", "group", 6, 60),
     ],
-    "technique": "property-based testing (rapid): header grammar vs reference, API sequences with a string-based tag oracle, racing writers + concurrent readers, crash-point enumeration with strace fault injection",
+    "technique": "property-based testing (rapid): header grammar vs reference, API sequences with a string-based tag oracle, racing writers + concurrent readers, writers parked between precondition check and body (Expect: 100-continue) while others write, crash-point enumeration with strace fault injection",
     "assumptions": ["process crashes at syscall boundaries only (no power-loss model)", "successive versions differ in size (bodies of distinct sizes); equal-size-equal-mtime versions are counted, not judged"],
 }
 
@@ -225,7 +228,7 @@ PROPS["C16"] = {
 PROPS["C20"] = {
     "units": [
         plain("regress", "diskwriter", "TestVerif_C20_Regress_.*"),
-        rapid("recording", "diskwriter", "TestVerif_C20_Recording", 600, 5000),
+        rapid("recording", "diskwriter", "TestVerif_C20_Recording", 1500, 8000),
     ],
     "technique": "model-based property testing (rapid): recordings parsed back with an EBML reader and compared with the frames a model publisher sent",
     "assumptions": ["diskwriter is driven through the public conn interfaces with a fake publisher; the packet cache behind it is the real one",
